@@ -18,6 +18,7 @@ import (
 var endingModes = []string{
 	"fin-boundary-halfclose", "fin-boundary-close", "fin-inside-halfclose", "fin-inside-close", "rst-boundary", "rst-inside",
 	"quit", "malformed-frame", "write-failure", "tls-garbage", "tls-abort", "tls-untrusted", "tls-cert-rejected", "tls-ok-then-close", "tls-ok-then-reset", "idle-then-close",
+	"closed-by-application",
 }
 
 // churnConn is one connection lifetime of the churn.
@@ -60,6 +61,10 @@ func runC19(t *testing.T, tape *sim.Tape, tier string) *Outcome {
 		}
 	}
 	setupTLSServer(cl, 0, rs)
+	cl.Srv.RegisterExexutor("XKILLME", func(conn *redis.Conn, cmd string, args redis.Arguments) (*redis.Message, error) {
+		conn.Close()
+		return redis.NewOKMessage(), nil
+	})
 	if cnRule {
 		cl.Srv.AddAuthenticator(auth.NewCertificateAuthenticatorWith(auth.WithCommonName(p.RuleName)))
 	}
@@ -173,6 +178,16 @@ func runC19(t *testing.T, tape *sim.Tape, tier string) *Outcome {
 			cc.plain.NoRead = true
 			cc.plain.S2CWindow = 64 + tape.Draw(600, "window")
 			cc.plain.End = endPlan{Mode: endReset, AfterTx: -1}
+		case "closed-by-application":
+			// the application ends the connection itself: a command whose executor closes the connection it was
+			// called for (CLIENT KILL style), on the plain or the TLS port
+			if tape.Draw(2, "killtls") == 1 {
+				cc.tls = cl.addTLSClient(name, tlsAddr, p.ClientConfig(p.Right), [][]byte{reqs[0], resp.Cmd("XKILLME"), reqs[2]})
+				break
+			}
+			cc.plain = cl.addClient(name, plainAddr, [][]byte{reqs[0], resp.Cmd("XKILLME"), reqs[2]})
+			cc.plain.Lockstep = tape.Draw(2, "lockstep") == 0
+			cc.plain.End = endPlan{Mode: -1}
 		case "idle-then-close":
 			cc.plain = cl.addClient(name, plainAddr, nil)
 			cc.plain.End = endPlan{Mode: endClose, AfterTx: -1}
@@ -467,7 +482,7 @@ func init() {
 	register(&Check{
 		ID: "C19", Bubble: true, Run: runC19,
 		Runs:   map[string]int{"quick": 800, "thorough": 2400},
-		Rule:   "a case (evaluation) is one connection lifetime inside a churn run: plain and TLS ports, optional common-name rule, reference store; each run opens 30 (thorough 1500) connections in batches with up to 1..32 in flight, each ended by a drawn mode {FIN at a request boundary or inside a request (half-close/close), RST at boundary/inside, QUIT (a third of them followed by a client that keeps sending a byte every 400 ms for a simulated minute: the socket must be closed within 30 s all the same), malformed frame, write failure after the client stopped reading, TLS garbage / abort after ClientHello / untrusted certificate / certificate rejected by the rule, TLS session then close or reset, idle then close}, interleaved by the seeded scheduler; some stay idle across batches; a third of the runs end with Stop (half of them after a Start that fails because the server is running) while connections are idle, mid-request, mid-handshake, inside a handler call and blocked in a reply write, in half of them also two TLS sessions whose peers were reset unnoticed, three in eight of them after a listener fault (accept loop dead after EMFILE; listener Close error); accounting (socket closed, goroutine gone, registry entry gone; idle baseline at the end) at every drain point; distinct = distinct event-log hashes of runs",
+		Rule:   "a case (evaluation) is one connection lifetime inside a churn run: plain and TLS ports, optional common-name rule, reference store; each run opens 30 (thorough 1500) connections in batches with up to 1..32 in flight, each ended by a drawn mode {FIN at a request boundary or inside a request (half-close/close), RST at boundary/inside, QUIT (a third of them followed by a client that keeps sending a byte every 400 ms for a simulated minute: the socket must be closed within 30 s all the same), malformed frame, write failure after the client stopped reading, TLS garbage / abort after ClientHello / untrusted certificate / certificate rejected by the rule, TLS session then close or reset, idle then close, closed by the application (a command whose executor closes its own connection)}, interleaved by the seeded scheduler; some stay idle across batches; a third of the runs end with Stop (half of them after a Start that fails because the server is running) while connections are idle, mid-request, mid-handshake, inside a handler call and blocked in a reply write, in half of them also two TLS sessions whose peers were reset unnoticed, three in eight of them after a listener fault (accept loop dead after EMFILE; listener Close error); accounting (socket closed, goroutine gone, registry entry gone; idle baseline at the end) at every drain point; distinct = distinct event-log hashes of runs",
 		Real:   []string{"redis.Server accept loops, TLS handshake goroutine, connection loop, ConnManager, Stop", "crypto/tls"},
 		Stub:   []string{"network: simulated (descriptor count = server-side ends not yet closed; real descriptors do not exist in the simulation)", "handler: reference store"},
 		Assume: []string{"the idle baseline is the set of parked server tasks right after Start (one accept loop per enabled port)"},
